@@ -46,6 +46,9 @@ DuplicateParam(S) ==
      \E a, b \in DOMAIN S.entries[i].params : a # b /\ S.entries[i].params[a].k = "struct" /\ S.entries[i].params[b].k = "struct"
         /\ Has(StructDef(S, S.entries[i].params[a].ty), "snake")
         /\ StructDef(S, S.entries[i].params[a].ty).snake = StructDef(S, S.entries[i].params[b].ty).snake
+(* ENTRY_<UPPER(name)> / <UPPER(name)>_WORKGROUP_SIZE: entry points whose names differ only in case get the same constant *)
+EntryConstClash(S) ==
+  \E i, j \in DOMAIN S.entries : i # j /\ Has(S.entries[i], "upper") /\ S.entries[i].upper = S.entries[j].upper
 PredictedCauses(S, o) ==
   (IF SerdeBigArray(S, o) THEN {"SerdeBigArray"} ELSE {})
   \cup (IF NonPodField(S, o) THEN {"NonPodField"} ELSE {})
@@ -54,4 +57,5 @@ PredictedCauses(S, o) ==
   \cup (IF KeywordIdent(S) THEN {"KeywordIdent"} ELSE {})
   \cup (IF NameClash(S) THEN {"NameClash"} ELSE {})
   \cup (IF DuplicateParam(S) THEN {"DuplicateParam"} ELSE {})
+  \cup (IF EntryConstClash(S) THEN {"EntryConstClash"} ELSE {})
 =============================================================================
